@@ -47,6 +47,10 @@ class RecordingSend:
         except (anyio.ClosedResourceError, anyio.EndOfStream):
             pass
 
+    def stop_reading(self) -> None:
+        """the peer reads nothing from now on (with a bounded capacity further writes wait)"""
+        self._task.cancel()
+
     def _note(self, item: Any) -> None:
         self.items.append((vnow(), item))
         self.first.set()
